@@ -69,6 +69,8 @@ SYNTACTIC += [
         "copy transfers every attribute and does not alias mutable state"),
     Syn("cotengra.slicer:ContractionCosts._set_state_from", ["C07"], lambda: F.copy_completeness("cotengra.slicer:ContractionCosts", copier="_set_state_from"),
         "copy transfers every attribute and does not alias mutable state"),
+    Syn("cotengra.pathfinders.path_basic:ContractionProcessor", ["C18"], lambda: F.single_leg_rule("cotengra.pathfinders.path_basic:ContractionProcessor"),
+        "one leg rule: every node the lightweight processor creates by contract_nodes gets its legs from compute_contracted (whose contract is proved)"),
     Syn("cotengra.reusable:ReusableOptimizer._run_optimizer", ["C16"], lambda: F.keyed_by_thread("cotengra.reusable:ReusableOptimizer._run_optimizer", "_suboptimizers"),
         "per-thread sub-optimizer slot"),
     Syn("cotengra.reusable:ReusableOptimizer.last_opt", ["C16"], lambda: F.keyed_by_thread("cotengra.reusable:ReusableOptimizer.last_opt", "_suboptimizers"),
